@@ -642,3 +642,12 @@ Theorem b_dir_order_irrelevant items' f :
 Proof.
   intros P. apply (order_irrelevant N b_xform 0 b_items_dir items' f P b_dir_wf (b_dir_reads_no_output 0)).
 Qed.
+
+(** work items are told apart by their exact path: names that differ only by case are two
+    sources, each with its own output *)
+Example collect_is_case_sensitive :
+  collect [(["src"; "Config.lua"]%string, [1]); (["src"; "config.lua"]%string, [2])]
+          ["src"%string] (Some ["out"%string])
+  = Some [(["src"; "Config.lua"]%string, ["out"; "Config.lua"]%string);
+          (["src"; "config.lua"]%string, ["out"; "config.lua"]%string)].
+Proof. vm_compute. reflexivity. Qed.
